@@ -88,7 +88,7 @@ def rule_unsafe_sites(ctx, config='dev'):
                                    'ASCII-only from_utf8_unchecked (ALPHABET), lifetime transmutes only of write-once / frozen referents '
                                    '(CACHE-BORROW, FROZEN-BORROW), unchecked piece indexing guarded against the empty vector (NONEMPTY), '
                                    'unchecked str slicing only inside `unsafe fn` or with table-derived bounds (UNCHECKED-CALLERS)')
-    r.floor = 15
+    r.floor = 4
     r.assumptions.append('NOT decided: that binary-search results index the right piece; that the char-index table yields ordered '
                          'char boundaries (rests on Rope::char_indices); schedules')
     bufs = find_buffers(f)
